@@ -471,10 +471,10 @@ func init() {
 				return lo
 			}
 			t := m.fresh(a[0], "int", 64, true)
-			if lo > -rngCap && hi < rngCap {
-				t.rlo, t.rhi, t.rstate = lo, hi, 1 // static range: lets narrow arithmetic on it be printed without wrap-around
-			}
-			m.assertPC(mkAnd(mkCmp("le", mkConst(lo, 64, true), t), mkCmp("le", t, mkConst(hi, 64, true))))
+			// the constraint is built before the static range is attached (comparisons fold on static ranges)
+			c := mkAnd(mkCmp("le", mkConst(lo, 64, true), t), mkCmp("le", t, mkConst(hi, 64, true)))
+			m.assertPC(c)
+			t.rlo, t.rhi, t.rstate = lo, hi, 1 // static range: narrow arithmetic on it prints without wrap-around, comparisons fold
 			return t
 		},
 		"ndByte": func(m *Machine, fr *frame, a []Val) Val { return m.fresh(a[0], "byte", 8, false) },
